@@ -16,9 +16,11 @@ import NV.Driver.Prof
 import NV.Driver.TTL
 import NV.Driver.FS
 import NV.Driver.ClientInfo
+import NV.Driver.Ecs
+import NV.Driver.Local
 namespace NV
 
-def steppers : List (List String → Option String) := [stepCore, stepCap, stepRaceSoak, stepListen, stepUpfault, Disc.stepDiscovery, Config.stepConfig, stepCache, stepFwd, stepProf, stepTTL, stepFS, stepClientInfo]
+def steppers : List (List String → Option String) := [stepCore, stepCap, stepRaceSoak, stepListen, stepUpfault, Disc.stepDiscovery, Config.stepConfig, stepCache, stepFwd, stepProf, stepTTL, stepFS, stepClientInfo, stepEcs, LocalDrv.stepLocal]
 
 def step (line : String) : String :=
   let toks := line.splitOn " "
